@@ -595,6 +595,23 @@ macro_rules! strict_backend {
                         val(json!(m.is_convex_subgraph()))
                     }
 
+                    "arrow.clone" => {
+                        let m = HypergraphArrow::<K, O, A> { source: hg(&a["source"]), target: hg(&a["target"]), w: ff(&a["w"]), x: ff(&a["x"]) };
+                        let c = m.clone();
+                        val(json!({"source": o_hg(&c.source), "target": o_hg(&c.target), "w": o_ff(&c.w), "x": o_ff(&c.x)}))
+                    }
+
+                    // ======================================================= hand-written Clone / PartialEq impls
+                    "ff.clone" => val(o_ff(&ff(&a["f"]).clone())),
+                    "sf.clone" => val(o_sf_o(&sf_o(&a["a"]).clone())),
+                    "sf.eq" => val(json!(sf_o(&a["a"]) == sf_o(&a["b"]))),
+                    "ic.clone_ff" => val(o_icf(&icf(&a["ic"]).clone())),
+                    "ic.clone_sf" => val(o_ics_o(&ics_o(&a["ic"]).clone())),
+                    "ic.eq_ff" => val(json!(icf(&a["a"]) == icf(&a["b"]))),
+                    "ic.eq_sf" => val(json!(ics_o(&a["a"]) == ics_o(&a["b"]))),
+                    "hyper.clone" => val(o_hg(&hg(&a["h"]).clone())),
+                    "strict.clone" => val(o_oh(&oh(&a["f"]).clone())),
+
                     // ======================================================= functors, optics (C12, C14)
                     "functor.map_arrow" => {
                         let t = TableFunctor { t: tables::FunctorTable::from_json(&a["F"]) };
